@@ -253,7 +253,38 @@ class Evaluator:
         self._kink(l - r, "relational")
         return {"==": l == r, "!=": l != r, "<": l < r, "<=": l <= r, ">": l > r, ">=": l >= r}[op]
 
-    def call1(self, name, x):
+    def on_cut(self, name, x, argnode=None):
+        """is x on (or within 1e-9 relative of) a branch cut of the named function?  (C99/mpmath cuts)"""
+        re = x.real if isinstance(x, mpc) else mpf(x)
+        im = x.imag if isinstance(x, mpc) else mpf(0)
+        eps = mpf(10) ** -9 * max(1, abs(x))
+        real_axis = abs(im) <= eps
+        imag_axis = abs(re) <= eps
+        if name in ("asin", "acos", "atanh"):
+            return real_axis and abs(re) >= 1 - eps
+        if name in ("asec", "acsc", "acoth"):
+            return real_axis and abs(re) <= 1 + eps
+        if name in ("atan", "asinh"):
+            return imag_axis and abs(im) >= 1 - eps
+        if name in ("acot", "acsch"):
+            return imag_axis and abs(im) <= 1 + eps
+        if name == "acosh":
+            return real_axis and re <= 1 + eps
+        if name == "asech":
+            return real_axis and (re <= eps or re >= 1 - eps)
+        if name == "log":
+            if argnode is not None and argnode[0] in self.LITERALS and argnode[0] not in ("RealDouble", "ComplexDouble", "real_double", "complex_double"):
+                return False  # log of an exact negative number: log|x| + I*pi is the universal convention
+            return real_axis and re <= eps
+        if name == "loggamma":
+            return real_axis and re <= eps
+        if name == "lambertw":
+            return real_axis and re <= -mp.exp(-1) + eps
+        return False
+
+    def call1(self, name, x, argnode=None):
+        if self.cut_guard and self.on_cut(name, x, argnode):
+            raise Unjudgeable("on_branch_cut:" + name)
         if name in ("floor", "ceiling", "truncate"):
             xr = _real(x, name)
             if self.margin is not None:
@@ -411,7 +442,7 @@ class Evaluator:
         if t in CLASS2NAME:
             n = CLASS2NAME[t]
             if n in F1:
-                return self.call1(n, self.value(d[1]))
+                return self.call1(n, self.value(d[1]), d[1])
             return _guard_pole(F2[n], n)(self.value(d[1]), self.value(d[2]))
         if t in ("Max", "Min", "max", "min"):
             items = d[1:] if t in ("Max", "Min") else d[1][1:]
@@ -466,7 +497,7 @@ class Evaluator:
             return self.subs_node(d[1], d[2])
         # ---------------- recipe interior
         if t in F1:
-            return self.call1(t, self.value(d[1]))
+            return self.call1(t, self.value(d[1]), d[1])
         if t in F2:
             return _guard_pole(F2[t], t)(self.value(d[1]), self.value(d[2]))
         if t == "div":
@@ -620,6 +651,23 @@ def float_kappa(node, env, funcs=None, margin=None, cut_guard=False, dps=50, mag
     if worst > 10 ** 4:
         raise Unjudgeable("ill_conditioned_float")
     return max(worst, mpf(1))
+
+
+def float_abs_tol(node, env, funcs=None, margin=None, cut_guard=False, dps=50, mag=300, factor=64):
+    """absolute tolerance for comparing a double-precision library result with the exact value of `node`:
+    factor * 2^-53 * max(|value|, A) where A is the first-order absolute error amplification of one-ulp
+    relative perturbations of every float-tainted node (six sign patterns).  Unjudgeable('ill_conditioned_float')
+    when A exceeds 1e4*|value| for a non-zero value."""
+    base = value(node, env, dps, funcs, margin, cut_guard, mag)
+    worst = mpf(0)
+    with mp.workdps(dps):
+        for bits in (0x5555555555555555, 0x3333333333333333, 0x0f0f0f0f0f0f0f0f, 0xffffffffffffffff,
+                     0x00ff00ff00ff00ff, 0x6996966996696996):
+            v = value(node, env, dps, funcs, margin, cut_guard, mag, pert=bits)
+            worst = max(worst, abs(v - base) / mpf(2) ** -52)
+        if base != 0 and worst > 10 ** 4 * abs(base):
+            raise Unjudgeable("ill_conditioned_float")
+        return factor * mpf(2) ** -53 * max(worst, abs(base))
 
 
 def resource_blocked(node, env=None, mag=300, funcs=None):
